@@ -36,7 +36,7 @@ IriOf(id) == CASE id = "i1" -> "http://a.b/c#d"
                [] id = "i2" -> "urn:x:y_z@w"
                [] id = "i3" -> "http://a.b/p_q"
                [] OTHER -> "http://u.v/dt#t"
-BnodeOf(id) == IF id = "b1" THEN "_:b1" ELSE "_:x_2"
+BnodeOf(id) == CASE id = "b1" -> "_:b1" [] id = "b3" -> "_:n.1.z" [] OTHER -> "_:x_2"      \* a label may contain '.', not end with it
 SuffixChars(sf) == CASE sf = "none" -> <<>>
                      [] sf = "lang" -> <<"@", "e", "n">>
                      [] sf = "langreg" -> <<"@", "e", "n", "-", "G", "B">>
@@ -58,8 +58,8 @@ AbsTerm(t) == CASE t.kind = "iri" -> <<"IRI", IriOf(t.id)>>
 Abstract(x) == <<AbsTerm(x.s), IriOf(x.p), AbsTerm(x.o)>>
 Lit(content, suffix) == [kind |-> "lit", id |-> "", content |-> content, suffix |-> suffix]
 Node(kind, id) == [kind |-> kind, id |-> id, content |-> <<>>, suffix |-> "none"]
-Subjects == {Node("iri", "i1"), Node("iri", "i2"), Node("bnode", "b1")}
-NodeObjects == {Node("iri", "i2"), Node("bnode", "b2")}
+Subjects == {Node("iri", "i1"), Node("iri", "i2"), Node("bnode", "b1"), Node("bnode", "b3")}
+NodeObjects == {Node("iri", "i2"), Node("bnode", "b2"), Node("bnode", "b3")}
 LitSuffixes == {"none", "lang", "langreg", "langnum", "dt"}
 
 \* ---------------------------------------------------------------- string helpers
